@@ -589,8 +589,7 @@ def stepH? (fuel : Nat) (s : HState) : HOp → Option HState
       | some ns =>
         match packetCreateH s.h ns with
         | some (some (pa, _), h') => some { (setSlot s (.pkt i) (some pa)) with h := h' }
-        | some (none, h') => some { s with h := h' }
-        | none => none
+        | _ => none     -- CIF_DUP_ITEMNAME: every block allocated on the way has been released again (packetCreateH_spec)
       | none => none
     else none
   | .pfree i =>
